@@ -94,8 +94,10 @@ class Rig(object):
         def probe(ctr):
             if 'deliver' in ctr.actions:
                 self.delivered.append(bytes(ctr.bundle))
-        self.agent._rx_chain.append(m['util'].ChainStep(order=25, name='probe', action=probe))
-        self.agent._rx_chain.sort()
+        # in front of the first step of order >= 30, WITHOUT re-sorting the chain (the agent's own order is what runs)
+        chain = self.agent._rx_chain
+        pos = next((i for i, st in enumerate(chain) if st.order >= 30), len(chain))
+        chain.insert(pos, m['util'].ChainStep(order=25, name='probe', action=probe))
 
     def enable_security(self):
         ''' a security association: HMAC-256 BIB over the payload block of every bundle (security policy on) '''
